@@ -507,8 +507,8 @@ Definition wf_fields (sh : shape) (filter : option str) (hostname : option str) 
    filter with a left anchor, ||host*...|, an empty ||host) *)
 Definition nondegenerate_fields (sh : shape) (filter : option str) (hostname : option str) : bool :=
   match filter with
-  | None => negb (s_la sh) && negb (s_rx sh)
-  | Some f => negb (s_hn sh && s_ra sh && negb (s_la sh))
+  | None => negb (s_la sh) && negb (s_rx sh) && negb (s_wild sh)
+  | Some f => negb (s_hn sh && (s_ra sh && negb (s_la sh) && negb (s_rx sh)))
   end
   && (if s_hn sh then match hostname with Some h => negb (nullb h) | None => false end else true).
 (* filter texts on which compile_regex's string translation is the canonical printing of the
